@@ -78,7 +78,10 @@ def observe(tag, H, g, is_sc, rng, plt):
     pos = convex_positions(list(H.nodes))
     if all(len(m) for m in st["e2n"]):
         def bary():
-            ep = xgi.edge_positions_from_barycenters(H, pos)
+            # positions given in another key order than H.nodes (label-sorted, hand-written, reused ...)
+            items = list(pos.items())
+            rng.shuffle(items)
+            ep = xgi.edge_positions_from_barycenters(H, dict(items))
             epos = []
             for e, p in ep.items():
                 k = len(H._edge[e])
@@ -111,6 +114,14 @@ def observe(tag, H, g, is_sc, rng, plt):
     for si, style in enumerate(styles):
         mo = mos[si % len(mos)]
         if is_sc:
+            for mo2 in (1, 2, 3) if si == 0 else ():
+                def ds2(mo2=mo2):
+                    ax, (dy, ed) = xgi.draw_simplices(H, pos=pos, max_order=mo2)
+                    _, lines, polys = scene(None, dy, ed)
+                    return base(f"{tag}.draw_simplices.mo{mo2}", "draw", "draw_simplices", st, sc=True, mo=mo2, lines=lines,
+                                polys=polys)
+                guarded(f"{tag}.draw_simplices.mo{mo2}", "draw", "draw_simplices", ds2, sc=True)
+
             def ds(mo=mo):
                 ax, (dy, ed) = xgi.draw_simplices(H, pos=pos, max_order=mo)
                 _, lines, polys = scene(None, dy, ed)
@@ -180,7 +191,7 @@ def _worker(args):
     out = []
     for k, j in enumerate(states):
         rng = random.Random(seed_ * 179424673 + base_ + k)
-        g = Gamma(*nets.FAMS[(base_ + k) % len(nets.FAMS)])
+        g = Gamma(*(nets.FAMS + [("npint", "npint"), ("floatnode", "int")])[(base_ + k) % 5])
         H = obscore.realise(j, g, rng, shuffle=True)
         out += observe(f"s{base_ + k}", H, g, False, rng, plt)
         S = xgi.SimplicialComplex()
